@@ -108,3 +108,7 @@ func DspUpsampleLinePair(topY, botY, topU, topV, botU, botV, topDst, botDst []by
 func DspDecFilter(kind string, p []byte, base, bps, n, thresh, ithresh, hevThresh int) {
 	lossy.VerifDecFilter(kind, p, base, bps, n, thresh, ithresh, hevThresh)
 }
+
+// DspSegmentMatrices returns the y1 / y2 / uv quantisation matrices of quantiser
+// index q (0..127) as the encoder's setupSegment builds them.
+func DspSegmentMatrices(q int) (y1, y2, uv DspSegmentQuant) { return lossy.VerifSegmentMatrices(q) }
